@@ -76,6 +76,7 @@ static void regexFacilities(const std::string& s, FacSet& fac) {
     if (contains(s, "\\p{Is") || contains(s, "\\P{Is")) fac.insert("rangetoken:block");
     for (size_t i = 0; i + 3 < s.size(); i++)
         if (s[i] == '\\' && (s[i + 1] == 'p' || s[i + 1] == 'P') && s[i + 2] == '{' && !(s[i + 3] == 'I' && i + 4 < s.size() && s[i + 4] == 's')) fac.insert("rangetoken:unicode");
+    if (contains(s, "\\P{")) fac.insert("rangetoken:complement");   // complements that no factory pre-builds are created lazily in getRange()
     static const char* const sh[] = {"\\w", "\\W", "\\s", "\\S", "\\i", "\\I", "\\c", "\\C", 0};
     for (int k = 0; sh[k]; k++) if (contains(s, sh[k])) fac.insert("rangetoken:xml");
     if (contains(s, "\\d") || contains(s, "\\D")) fac.insert("rangetoken:unicode");
@@ -270,7 +271,7 @@ static std::string runDom(const Req& r, FacSet& fac) {
 // ------------------------------------------------------------------------------------------------
 static std::string runRegex(const Req& r, FacSet& fac) {
     std::string pat = get(r, "pat"), opt = get(r, "opt"), out;
-    regexFacilities(pat, fac);
+    regexFacilities(narrow(U(pat).c()), fac);
     fac.insert("regex");
     try {
         RegularExpression re(U(pat).c(), X(opt).c());
@@ -460,7 +461,6 @@ static void warmRangeToken(const std::string& cats) {
     for (int k = 0; sh[k]; k++) pats.push_back(sh[k]);
     for (size_t i = 0; i < pats.size(); i++) {
         try { RegularExpression re(X(pats[i]).c()); re.matches(X("a").c()); } catch (...) {}
-        try { RegularExpression re(X(pats[i]).c(), X("i").c()); re.matches(X("a").c()); } catch (...) {}
         try { RegularExpression re(X(pats[i]).c(), X("X").c()); re.matches(X("a").c()); } catch (...) {}
     }
 }
